@@ -55,3 +55,7 @@ package genbank
 //@ # recursion): assumed only not to touch the caller's arrays. Bounded check: oracle variants_regions.
 //@ func Location.GetPositions trusted
 //@ func Location.IsReverse trusted
+
+//@ # C14: inside an open /qualifier="..." quote no line starts a new feature, whatever it looks like
+//@ func isFeatureLine
+//@   ensures [c14.quote] implies(!quoteClosed, !result)
